@@ -71,6 +71,20 @@ Theorem C15_failure_isolated : forall W, world_ok W -> forall ps pre r post,
 Proof. exact failure_isolated. Qed.
 Print Assumptions C15_failure_isolated.
 
+(* If the in-process functions leave the state unchanged whenever they raise ([raise_pure]: true of
+   the pinned wrappers, e.g. configure assigns self.project only after Project(...) returned; the
+   check evaluates it on real servers by replaying sequences with and without the failing request),
+   then EVERY request that raises, at ANY index, changes no other reply. *)
+Theorem C15_raising_request_isolated : forall W, world_ok W -> raise_pure W ->
+  forall ps pre r post c m,
+  benign W ps (pre ++ r :: post) ->
+  fst (api W (inproc_state W ps pre) r) = Raise c m ->
+  let without := fst (run_calls W (init W ps) (pre ++ post)) in
+  fst (run_calls W (init W ps) (pre ++ r :: post)) =
+    firstn (length pre) without ++ expected W (Raise c m) :: skipn (length pre) without.
+Proof. exact raising_request_isolated. Qed.
+Print Assumptions C15_raising_request_isolated.
+
 (* Pipelining at the connection level: sending all requests before reading any reply gives the
    same replies in the same order (and the same final state) as one call at a time. *)
 Theorem C15_pipeline_in_order : forall W, world_ok W -> forall ps rs, benign W ps rs ->
